@@ -241,7 +241,12 @@ func C09(r *report.Report, tier string) {
 		rec(nil, depth)
 	}
 	failing := map[string]int{}
-	par.Map("c09", jobs, par.Options{}, func(i int, res *par.Result) {
+	par.Map("c09", jobs, par.Options{Deadline: Deadline}, func(i int, res *par.Result) {
+		if res.Skipped {
+			r.Exhaustive = false
+			r.Add("jobs_not_run_time_budget", 1)
+			return
+		}
 		if res.Crashed || res.Err != "" {
 			r.Violate(report.Violation{Sig: "worker-died", Detail: res.Err + tail(res.Stderr, 2000), Replay: map[string]interface{}{"job": "c09", "arg": jobs[i]}})
 			return
